@@ -579,7 +579,8 @@ Proof.
   - (* an uncatchable panic left a return() call *)
     destruct (inrec && negb fixed) eqn:Hm.
     + apply andb_prop in Hm. destruct Hm as (_ & Hf). apply negb_true_iff in Hf.
-      split; [|split]; simpl; rewrite ?dv_deviate; try lia. congruence.
+      assert (Dr : forall a b x, dv (restore_stacks a b x) = dv x) by reflexivity.
+      split; [|split]; simpl; rewrite ?dv_deviate, ?Dr; try lia. congruence.
     + assert (G : GInv PostJ s (handle_throw p0 (with_regs_of s3 s4))).
       { apply (raise_inv' p0 s s1 (with_regs_of s3 s4) K); try (unfold dv in *; cbn; lia).
         - intros F. unfold dv in *. cbn. rewrite B', Dm, B; auto.
